@@ -6,6 +6,8 @@ To configure and use your own, see https://code.pobblelabs.org/fossil/nostr_rela
 import asyncio
 from time import time
 
+from aionostr.event import Event
+
 from nostr_relay.errors import StorageError
 from nostr_relay.util import object_from_path
 
@@ -22,6 +24,11 @@ def is_signed(event, config):
     """
     Ensure the event is correctly formatted and signed
     """
+    # verify() checks the signature against the recomputed hash, not against the claimed id
+    if event.id != Event.compute_id(
+        event.pubkey, event.created_at, event.kind, event.tags, event.content
+    ):
+        raise StorageError("invalid: Bad signature")
     if not event.verify():
         raise StorageError("invalid: Bad signature")
 
